@@ -96,7 +96,8 @@ Definition margins (sh : shape) (x y : Q) : list Q :=
              for j in range(subpixels):
                  y += dy
                  if <inside>: frac += 1
-     [Qred] only normalises the fraction (Qred q == q); the result is frac (the weight is
+     [Qred] (here and in the drivers) only normalises a fraction (Qred q == q) so that the
+     numerals stay small under vm_compute; the result is frac (the weight is
      frac / (subpixels*subpixels)) *)
 Fixpoint loop_y (sh : shape) (n : nat) (x y dy : Q) (frac : Z) : Z :=
   match n with
@@ -111,9 +112,9 @@ Fixpoint loop_x (sh : shape) (n ny : nat) (x dx y0 dy : Q) (frac : Z) : Z :=
             loop_x sh n' ny x' dx y0 dy (loop_y sh ny x' (y0 - half * dy) dy frac)
   end.
 Definition single_subpixel (sh : shape) (x0 y0 x1 y1 : Q) (s : Z) : Z :=
-  let dx := (x1 - x0) / inject_Z s in
-  let dy := (y1 - y0) / inject_Z s in
-  loop_x sh (Z.to_nat s) (Z.to_nat s) (x0 - half * dx) dx y0 dy 0%Z.
+  let dx := Qred ((x1 - x0) / inject_Z s) in
+  let dy := Qred ((y1 - y0) / inject_Z s) in
+  loop_x sh (Z.to_nat s) (Z.to_nat s) (Qred (x0 - half * dx)) dx (Qred y0) dy 0%Z.
 
 (* --- specification side: the explicit set of sub-pixel centres of the pixel
        [x0,x1] x [y0,y1] and the number of them inside the shape *)
@@ -154,10 +155,10 @@ Definition cell (sh : shape) (pr dx dy pxmin pymin : Q) (s : Z) : Z :=
   end.
 
 Definition overlap_grid (sh : shape) (pr xmin xmax ymin ymax : Q) (nx ny s : Z) : list (list Z) :=
-  let dx := (xmax - xmin) / inject_Z nx in
-  let dy := (ymax - ymin) / inject_Z ny in
-  map (fun j => map (fun i => cell sh pr dx dy (xmin + inject_Z (Z.of_nat i) * dx)
-                                               (ymin + inject_Z (Z.of_nat j) * dy) s)
+  let dx := Qred ((xmax - xmin) / inject_Z nx) in
+  let dy := Qred ((ymax - ymin) / inject_Z ny) in
+  map (fun j => map (fun i => cell sh pr dx dy (Qred (xmin + inject_Z (Z.of_nat i) * dx))
+                                               (Qred (ymin + inject_Z (Z.of_nat j) * dy)) s)
                     (seq 0 (Z.to_nat nx)))
       (seq 0 (Z.to_nat ny)).
 
